@@ -146,6 +146,7 @@ class CommandsCache(cabc.Mapping):
         self._cmds_cache: dict[str, tuple[str, bool | None]] = {}
 
         self._alias_checksum: int | None = None
+        self._last_paths: tuple[str, ...] | None = None
         self.threadable_predictors = default_threadable_predictors()
 
         # Path to the cache-file where all commands/aliases are cached for pre-loading"""
@@ -214,7 +215,11 @@ class CommandsCache(cabc.Mapping):
         """
         is_aliases_change = self._update_aliases_cache()
         is_paths_change = self._update_paths_cache(paths)
-        return is_aliases_change or is_paths_change
+        # $PATH itself may have been reordered or shortened without any
+        # directory changing on disk.
+        is_order_change = paths != self._last_paths
+        self._last_paths = paths
+        return is_aliases_change or is_paths_change or is_order_change
 
     @property
     def all_commands(self):
